@@ -95,3 +95,8 @@ A_TOK = ('parse_* contracts: the match object is any match of the token pattern 
 def dispatch_structural(ctx):
     from pyvc import structural
     return structural.C06_dispatch(ctx)
+
+
+def validate_single(ctx):
+    from pyvc import validate_bs4 as v
+    return v.single_valued(ctx)
